@@ -381,6 +381,75 @@ def g5(prog, rep):
                   function=f.name, construct="bswap")
 
 
+
+def g6_cursor(prog, rep):
+    """CRC32C_Update_SSE42 consumes its input strictly in order: every data operand of a crc32 instruction is read at the
+    running cursor (buf[i + k]), and between two advances of the cursor the operands tile exactly the bytes the advance
+    skips (so no byte is folded twice, skipped, or taken from another position).  The library's self-test ("hello world",
+    11 bytes) cannot tell a wrong read position in the aligned-tail handling from a right one."""
+    u = prog.unit("alg/crc32c_sse42.c")
+    f = u.func("CRC32C_Update_SSE42")
+    if f is None:
+        return
+    if not rep.names(f, "buf", "i", "len"):
+        return
+    W = {"_mm_crc32_u8": 1, "_mm_crc32_u16": 2, "_mm_crc32_u32": 4, "_mm_crc32_u64": 8,
+         "__builtin_ia32_crc32qi": 1, "__builtin_ia32_crc32hi": 2, "__builtin_ia32_crc32si": 4, "__builtin_ia32_crc32di": 8}
+    I = [("v", p["name"], p["id"]) for p in f.params if p["name"] == "i"]
+    ivar = None
+    for e in f.all_elems():
+        st = ir.step(e)
+        if st and st[1][0] == "v" and st[1][1] == "i":
+            ivar = st[1]
+    bufp = ("v", f.params[1]["name"], f.params[1]["id"])
+    sites = []
+    for c in f.calls():
+        if c.callee in W:
+            a = norm(c.arg(1))
+            # buf[i + k]  or  *(T *)&buf[i + k]
+            if a[0] == "*" and len(a) == 2:
+                a = a[1]
+                if a[0] == "&":
+                    a = a[1]
+            elif a[0] == "[]":
+                pass
+            off = None
+            if a[0] == "[]" and a[1] == bufp:
+                idx = a[2]
+                if idx == ivar:
+                    off = 0
+                elif idx[0] == "+" and ivar in (idx[1], idx[2]):
+                    o = idx[2] if idx[1] == ivar else idx[1]
+                    off = o[1] if o[0] == "c" else None
+            sites.append((c, off, W[c.callee]))
+    advs = [(e, ir.step(e)) for e in f.all_elems() if ir.step(e) and ir.step(e)[1] == ivar]
+    groups = {}
+    ok_all = bool(sites) and ivar is not None
+    for c, off, w in sites:
+        if off is None:
+            rep.bad("G6-cursor", "%s operand in %s" % (c.callee, f.name), c.where,
+                    "the data operand %s is not read at the running cursor buf[i + k]: the bytes folded into the CRC are not the next unread ones" % show(norm(c.arg(1))),
+                    function=f.name, construct="cursor-operand")
+            ok_all = False
+            continue
+        # the advance that follows this read: the first advance on every path from it
+        nxt = [a for a, st in advs if f.always_passes(c, a) and not any(f.always_passes(c, b) and f.always_passes(b, a) and b is not a for b, _ in advs)]
+        if len(nxt) != 1:
+            rep.bad("G6-cursor", "%s operand in %s" % (c.callee, f.name), c.where, "no unique cursor advance follows this read", function=f.name, construct="cursor-advance")
+            ok_all = False
+            continue
+        groups.setdefault(nxt[0].pos, (nxt[0], []))[1].append((off, w))
+    for pos, (a, reads) in sorted(groups.items()):
+        amount = ir.step(a)[2]
+        cover = sorted(reads)
+        want = amount[1] if amount[0] == "c" and ir.step(a)[0] == "+=" else None
+        tiled = want is not None and cover and cover[0][0] == 0 and all(cover[k][0] + cover[k][1] == cover[k + 1][0] for k in range(len(cover) - 1)) and cover[-1][0] + cover[-1][1] == want
+        rep.check(tiled, "G6-cursor", "reads before `%s` tile the %s bytes it skips" % (a.text[:20], want), a.where, "reads (offset, width): %s" % cover,
+                  function=f.name, construct="cursor-tile")
+    if ok_all:
+        rep.ok("G6-cursor", "every crc32 operand of %s is read at the cursor" % f.name, f.loc)
+
+
 def run(tier):
     rep = report.Report("C03", tier,
         "Decided in every analysed feature configuration: instruction-set specific routines are used only under the matching selector, "
@@ -388,7 +457,7 @@ def run(tier):
         "its unit is compiled for and a passing self-test whose call tree contains the routine (G2); length thresholds imply the "
         "accelerated routines' preconditions (G3); instruction-set flags appear only on the accelerated units, and sibling dispatchers "
         "agree on the selector (G4); accelerated units use no sign-dependent vector operation, which their self-test vectors could not "
-        "notice (G5); the portable and AES-NI CTR code agree on counter layout and position bookkeeping (L rules shared with C02). NOT decided: equality of accelerated and portable results for all inputs -- that is delegated to "
+        "notice (G5); the SSE4.2 CRC routine reads every operand at its running cursor and the reads tile what each advance skips (G6); the portable and AES-NI CTR code agree on counter layout and position bookkeeping (L rules shared with C02). NOT decided: equality of accelerated and portable results for all inputs -- that is delegated to "
         "the library's run-time self-tests, whose wiring G2 verifies; a wrong constant inside an accelerated transform is caught by "
         "that self-test at run time and falls back, so no table check is armed there.",
         trusted=["the self-tests' known-answer vectors", "cpusupport_x86_* run-time probes"])
@@ -405,6 +474,7 @@ def run(tier):
             g3(prog, rep)
             g4(prog, rep, tier)
             g5(prog, rep)
+            g6_cursor(prog, rep)
             # the AES-CTR siblings must agree on counter layout and position bookkeeping (rules shared with C02)
             from . import c02
             c02.l1_l3(prog, rep)
@@ -423,4 +493,5 @@ def run(tier):
     rep.require_min("G1-dispatch", 10)
     rep.require_min("G2-select", 4)
     rep.require_min("G4-flags", 70)
+    rep.require_min("G6-cursor", 4)
     return rep
